@@ -1,39 +1,32 @@
 #!/usr/bin/env python3
-"""seedsweep.py - re-run every stored seeded change against the current checks.
-For each /verif/seeded/<name>/: apply patch.diff to /repo (git apply), run `bin/sa -prop P -no-evidence` for the
-seed's property (and the extra properties named in caught_by), undo (git checkout -- .). Prints one line per seed:
-  CAUGHT <name> by <rules> | MISSED <name> | STALE <name> (patch no longer applies: the code it changes was repaired/rewritten)
-Never writes evidence; /repo is left clean."""
-import json, os, re, subprocess, sys
+"""seedsweep.py - re-run every stored seeded change against the current checks, as in-memory overlays
+(tools/patchrun.py; /repo is not modified). For each /verif/seeded/<name>/: patch.diff (or patch.rebased.diff when
+later fix: commits moved the code under it) is applied to scratch copies of the files it touches and the seed's
+property (plus the properties named in caught_by) is checked. One line per seed:
+  CAUGHT <name> by <rules> | MISSED <name> | STALE <name> (no longer applies: the code it changes was repaired/rewritten)"""
+import json, os, re, sys, collections, concurrent.futures
+sys.path.insert(0, os.path.dirname(os.path.abspath(__file__)))
+import patchrun
 root = "/verif/seeded"
-res = []
-assert subprocess.run(["git", "-C", "/repo", "status", "--porcelain"], capture_output=True, text=True).stdout.strip() == "", "/repo not clean"
-for name in sorted(os.listdir(root)):
+def one(name):
     d = os.path.join(root, name)
     meta = json.load(open(os.path.join(d, "meta.json")))
-    props = [meta["property"]] + [p for p in re.findall(r"\bC\d\d\b", meta.get("caught_by", "")) if p != meta["property"]]
-    props = list(dict.fromkeys(props))
-    patch = os.path.join(d, "patch.diff")
-    if subprocess.run(["git", "-C", "/repo", "apply", "--check", patch], capture_output=True).returncode != 0:
-        patch = os.path.join(d, "patch.rebased.diff")
-        if not os.path.exists(patch) or subprocess.run(["git", "-C", "/repo", "apply", "--check", patch], capture_output=True).returncode != 0:
-            res.append(("STALE", name, "")); print("STALE ", name, flush=True); continue
-    subprocess.run(["git", "-C", "/repo", "apply", patch], check=True)
-    try:
-        rules = set()
-        for p in props:
-            out = subprocess.run(["/verif/bin/sa", "-prop", p, "-no-evidence"], capture_output=True, text=True).stdout
-            for m in re.finditer(r"CONTROL-(FAIL rule=(\S+)|FLOOR construct=(\S+))", out):
-                r = m.group(2) or ("floor:" + m.group(3))
-                rules.add(p + " " + r)
-    finally:
-        subprocess.run(["git", "-C", "/repo", "checkout", "--", "."], check=True)
-        subprocess.run(["git", "-C", "/repo", "clean", "-fdq"], check=True)
-    # the one open static finding shows up in control mode on every run of C20: not a catch
-    rules = {r for r in rules if "registered-functions-stateless" not in r}
-    if rules:
-        res.append(("CAUGHT", name, ", ".join(sorted(rules)))); print("CAUGHT", name, "by", ", ".join(sorted(rules)), flush=True)
-    else:
-        res.append(("MISSED", name, "")); print("MISSED", name, flush=True)
-import collections
-print(collections.Counter(r[0] for r in res))
+    props = list(dict.fromkeys([meta["property"]] + re.findall(r"\bC\d\d\b", meta.get("caught_by", ""))))
+    for pn in ("patch.diff", "patch.rebased.diff"):
+        f = os.path.join(d, pn)
+        if not os.path.exists(f): continue
+        st, out = patchrun.run(f, props)
+        if st == "ok":
+            rules = set()
+            for p in props:
+                for l in out[p]:
+                    m = re.search(r"CONTROL-(FAIL rule=(\S+)|FLOOR construct=(\S+))", l)
+                    if m: rules.add(p + " " + (m.group(2) or "floor:" + m.group(3)))
+            return name, ("CAUGHT" if rules else "MISSED"), ", ".join(sorted(rules))
+    return name, "STALE", ""
+res = []
+with concurrent.futures.ThreadPoolExecutor(4) as ex:
+    for name, st, rules in ex.map(one, sorted(os.listdir(root))):
+        res.append(st)
+        print(st.ljust(6), name, ("by " + rules) if rules else "", flush=True)
+print(collections.Counter(res))
